@@ -438,6 +438,7 @@ func scenC17(w *vsim.World, spec *vsim.Spec) {
 	var dirsList []string // container paths of directories
 	var filesList []string
 	var links []struct{ dir, name string }
+	var sibFiles []string // ordinary files whose path merely starts with the path of a mount point
 	nentries := 0
 	var build func(n *tnode, ctrPath, hostPath string, depth int)
 	build = func(n *tnode, ctrPath, hostPath string, depth int) {
@@ -473,6 +474,15 @@ func scenC17(w *vsim.World, spec *vsim.Spec) {
 				secretMounts[ctrPath+"/"+nm] = arvados.Mount{Kind: "text", Content: "secret"}
 				cw.secrets[ctrPath+"/"+nm] = true
 				w.Probe("secret-inside-output")
+				// a neighbour whose name merely starts with the secret's name is an ordinary file
+				if sib := nm + ".pub"; n.kids[sib] == nil && w.Chance("secret-sibling", 600) {
+					nentries++
+					d := c17data(nentries, 5)
+					n.kids[sib] = &tnode{data: d}
+					os.WriteFile(filepath.Join(hostPath, sib), d, 0644)
+					filesList = append(filesList, ctrPath+"/"+sib)
+					sibFiles = append(sibFiles, ctrPath+"/"+sib)
+				}
 			}
 		}
 	}
@@ -491,6 +501,28 @@ func scenC17(w *vsim.World, spec *vsim.Spec) {
 			w.Probe("collection-mounted-below-output")
 			if dir != cw.ctrOut {
 				w.Probe("collection-mounted-in-subdirectory")
+			}
+			// neighbours whose names merely start with the mount point's name: an ordinary file, or a directory with a file
+			if w.Chance(fmt.Sprintf("m%d-sibling", i), 600) {
+				dn := cw.lookup(dir)
+				hostDir := filepath.Join(hostOut, strings.TrimPrefix(dir, cw.ctrOut))
+				nentries++
+				d := c17data(nentries, 6)
+				if w.Chance(fmt.Sprintf("m%d-sibling-dir", i), 400) {
+					sib := fmt.Sprintf("mp%d2", i)
+					dn.kids[sib] = &tnode{dir: true, kids: map[string]*tnode{"part": {data: d}}}
+					os.Mkdir(filepath.Join(hostDir, sib), 0755)
+					os.WriteFile(filepath.Join(hostDir, sib, "part"), d, 0644)
+					dirsList = append(dirsList, dir+"/"+sib)
+					filesList = append(filesList, dir+"/"+sib+"/part")
+					sibFiles = append(sibFiles, dir+"/"+sib+"/part")
+				} else {
+					sib := fmt.Sprintf("mp%d.txt", i)
+					dn.kids[sib] = &tnode{data: d}
+					os.WriteFile(filepath.Join(hostDir, sib), d, 0644)
+					filesList = append(filesList, dir+"/"+sib)
+					sibFiles = append(sibFiles, dir+"/"+sib)
+				}
 			}
 		}
 		mp := ""
@@ -535,12 +567,23 @@ func scenC17(w *vsim.World, spec *vsim.Spec) {
 			target = l.dir + "/" + l.name // self loop
 			bad++
 			w.Fault("link-cycle")
+		case k == 6 && len(sibFiles) > 0 && w.Chance("link-to-mount-sibling", 700):
+			target = sibFiles[w.Choose("link-sibling", len(sibFiles))]
+			w.Probe("link-to-neighbour-of-mount")
 		case k == 6:
 			target = "/etc/not-mounted/x"
+			if nmounts > 0 && w.Chance("escape-near-mount", 300) {
+				target = "/mnt/c0x/y" // not beneath /mnt/c0: only the first characters agree
+			} else if cw.secrets["/secret_text"] && w.Chance("escape-near-secret", 300) {
+				target = "/secret_textual"
+			}
 			bad++
 			w.Fault("link-escapes-mounts")
 		default:
-			if len(filesList) == 0 {
+			if len(sibFiles) > 0 {
+				target = sibFiles[w.Choose("link-sibling", len(sibFiles))]
+				w.Probe("link-to-neighbour-of-mount")
+			} else if len(filesList) == 0 {
 				target = "/etc/not-mounted/y"
 				bad++
 				w.Fault("link-escapes-mounts")
